@@ -177,9 +177,21 @@ func mapReduceWithPanicChan(source <-chan any, panicChan *onceChan, mapper Mappe
 	// out 用于写入最终结果
 	output := make(chan any)
 	defer func() {
-		// 聚合只允许写入一次，否则 panic
-		for range output {
-			panic("多次写入聚合器")
+		// 聚合只允许写入一次，否则 panic。
+		// 等待 output 关闭期间也要接收迟到的 panic（聚合器写出结果之后才 panic）：
+		// 否则 panic 的一方阻塞在 panicChan 上、output 永不关闭，调用方永远无法返回。
+		for {
+			select {
+			case v := <-panicChan.channel:
+				drain(output)
+				panic(v)
+			case _, ok := <-output:
+				if !ok {
+					return
+				}
+
+				panic("多次写入聚合器")
+			}
 		}
 	}()
 
